@@ -87,3 +87,84 @@ row('NAME.CAT', ['C04'], takes=[('name', 2)], pushes=[('name', None)],
     clauses=[('fired.value.name.0', 'S0.name.len() >= 2 ==> ({ let r = top(S1.name, 0)@; let a = %s@; let b = %s@; '
               'r.len() >= a.len() + b.len() && r.subrange(0, a.len() as int) =~= a && r.subrange(r.len() - b.len(), r.len() as int) =~= b })' % (an, bn))])
 row('NAME.ID', ['C04'], pushes=[('int', '11i32')])
+
+# ------------------------------------------------------------------ C05: stack manipulation, one template for all nine stacks
+STACKS = {'BOOLEAN': 'bool', 'INTEGER': 'int', 'FLOAT': 'float', 'NAME': 'name', 'CODE': 'code', 'EXEC': 'exec',
+          'BOOLVECTOR': 'boolvec', 'INTVECTOR': 'intvec', 'FLOATVECTOR': 'floatvec'}
+HAS_ROT = ['BOOLEAN', 'INTEGER', 'FLOAT', 'NAME', 'CODE', 'EXEC']
+
+
+def exact(stack, expr, cond=None, label='result'):
+    """clause: [cond ==>] S1.stack =~= expr"""
+    c = 'S1.%s =~= (%s)' % (stack, expr)
+    return (label + '.' + stack, ('(%s) ==> (%s)' % (cond, c)) if cond else c)
+
+
+for T, x in STACKS.items():
+    P = ['C05']
+    # DUP adds exactly one copy of the top item; nothing happens on an empty stack
+    row(T + '.DUP', P, touches=[x], clauses=[
+        exact(x, 'S0.%s.push(top(S0.%s, 0))' % (x, x), 'S0.%s.len() >= 1' % x, 'fired'),
+        exact(x, 'S0.%s' % x, 'S0.%s.len() == 0' % x, '{C05,C10}unfired')])
+    row(T + '.POP', P, touches=[x], clauses=[
+        exact(x, 'S0.%s.drop_last()' % x, 'S0.%s.len() >= 1' % x, 'fired'),
+        exact(x, 'S0.%s' % x, 'S0.%s.len() == 0' % x, '{C05,C10}unfired')])
+    row(T + '.SWAP', P, touches=[x], clauses=[exact(x, 'shove_seq(S0.%s, 1)' % x, None, 'fired')])
+    if T in HAS_ROT:
+        row(T + '.ROT', P, touches=[x], clauses=[exact(x, 'yank_seq(S0.%s, 2)' % x, None, 'fired')])
+    row(T + '.FLUSH', P, touches=[x], clauses=[exact(x, 'Seq::empty()', None, 'fired')])
+    if x != 'int':
+        idx = 'top(S0.int, 0) as int'
+        have = 'S0.int.len() >= 1'
+        none = 'S0.int.len() == 0'
+        k = 'clamp_idx(%s, S0.%s.len() as int)' % (idx, x)
+        row(T + '.YANK', P, touches=[x, 'int'], clauses=[
+            exact('int', 'S0.int.drop_last()', have, 'fired'),
+            exact(x, 'yank_seq(S0.%s, %s)' % (x, k), have, 'fired'),
+            exact('int', 'S0.int', none, '{C05,C10}unfired'), exact(x, 'S0.%s' % x, none, '{C05,C10}unfired')])
+        row(T + '.SHOVE', P, touches=[x, 'int'], clauses=[
+            exact('int', 'S0.int.drop_last()', have, 'fired'),
+            exact(x, 'shove_seq(S0.%s, %s)' % (x, k), have, 'fired'),
+            exact('int', 'S0.int', none, '{C05,C10}unfired'), exact(x, 'S0.%s' % x, none, '{C05,C10}unfired')])
+        row(T + '.YANKDUP', P, touches=[x, 'int'], clauses=[
+            exact('int', 'S0.int.drop_last()', have, 'fired'),
+            exact(x, 'S0.%s.push(top(S0.%s, %s))' % (x, x, k), have + ' && S0.%s.len() >= 1' % x, 'fired'),
+            exact(x, 'S0.%s' % x, have + ' && S0.%s.len() == 0' % x, 'fired.empty'),
+            exact('int', 'S0.int', none, '{C05,C10}unfired'), exact(x, 'S0.%s' % x, none, '{C05,C10}unfired')])
+        row(T + '.STACKDEPTH', P, touches=['int'], clauses=[exact('int', 'S0.int.push(S0.%s.len() as i32)' % x, None, 'fired')])
+    else:
+        # the index is taken from the INTEGER stack first; positions count in what remains
+        idx = 'top(S0.int, 0) as int'
+        rest = 'S0.int.drop_last()'
+        have = 'S0.int.len() >= 1'
+        none = 'S0.int.len() == 0'
+        k = 'clamp_idx(%s, S0.int.len() - 1)' % idx
+        row('INTEGER.YANK', P, touches=['int'], clauses=[
+            exact('int', 'yank_seq(%s, %s)' % (rest, k), have, 'fired'), exact('int', 'S0.int', none, '{C05,C10}unfired')])
+        row('INTEGER.SHOVE', P, touches=['int'], clauses=[
+            exact('int', 'shove_seq(%s, %s)' % (rest, k), have, 'fired'), exact('int', 'S0.int', none, '{C05,C10}unfired')])
+        row('INTEGER.YANKDUP', P, touches=['int'], clauses=[
+            exact('int', '%s.push(top(%s, %s))' % (rest, rest, k), 'S0.int.len() >= 2', 'fired'),
+            exact('int', rest, 'S0.int.len() == 1', 'fired.empty'), exact('int', 'S0.int', none, '{C05,C10}unfired')])
+        # "INTEGER.STACKDEPTH counts the value it pushes"
+        row('INTEGER.STACKDEPTH', P, touches=['int'], clauses=[exact('int', 'S0.int.push((S0.int.len() + 1) as i32)', None, 'fired')])
+row('INTEGER.DDUP', ['C05'], touches=['int'], clauses=[
+    exact('int', 'S0.int.push(top(S0.int, 1)).push(top(S0.int, 0))', 'S0.int.len() >= 2', 'fired'),
+    exact('int', 'S0.int', 'S0.int.len() < 2', '{C05,C10}unfired')])
+
+# ------------------------------------------------------------------ C07: DEFINE family
+LIT = {
+    'BOOLEAN': ('bool', 'crate::push::item::Item::Literal { push_type: crate::push::item::PushType::Bool { val: %s } }'),
+    'INTEGER': ('int', 'crate::push::item::Item::Literal { push_type: crate::push::item::PushType::Int { val: %s } }'),
+    'FLOAT': ('float', 'crate::push::item::Item::Literal { push_type: crate::push::item::PushType::Float { val: %s } }'),
+    'BOOLVECTOR': ('boolvec', 'crate::push::item::Item::Literal { push_type: crate::push::item::PushType::BoolVector { val: %s } }'),
+    'INTVECTOR': ('intvec', 'crate::push::item::Item::Literal { push_type: crate::push::item::PushType::IntVector { val: %s } }'),
+    'FLOATVECTOR': ('floatvec', 'crate::push::item::Item::Literal { push_type: crate::push::item::PushType::FloatVector { val: %s } }'),
+    'CODE': ('code', '%s'), 'EXEC': ('exec', '%s'),
+}
+for T, (x, lit) in LIT.items():
+    v = lit % ('top(S0.%s, 0)' % x)
+    row(T + '.DEFINE', ['C07'], takes=[('name', 1), (x, 1)], touches=['bindings'], clauses=[
+        ('fired.binding', '(S0.name.len() >= 1 && S0.%s.len() >= 1) ==> S1.bindings == S0.bindings.insert(top(S0.name, 0), %s)' % (x, v)),
+        ('{C07,C10}unfired.binding', '!(S0.name.len() >= 1 && S0.%s.len() >= 1) ==> S1.bindings == S0.bindings' % x)])
+row('NAME.QUOTE', ['C07'], touches=['quote'], clauses=[('fired.flag', 'S1.quote == true')])
